@@ -329,7 +329,8 @@ func (s emptyElementPseudoClassSelector) Match(n *html.Node) bool {
 		case html.ElementNode:
 			return false
 		case html.TextNode:
-			if strings.TrimSpace(nodeText(c)) == "" {
+			// only document white space is ignored (not e.g. a no-break space)
+			if strings.Trim(nodeText(c), " \t\n\r\f") == "" {
 				continue
 			} else {
 				return false
